@@ -132,19 +132,48 @@ def check(col, prog, tier, profile, fixture=None):
         b = R.fn[nm]
         I = c01.analyse(b)
         node, vl, vr = c01.infer_positions(I, b)
-        Pi, Pvl, Pvr = P(I, node + 1), P(I, vl + 1), P(I, vr + 1)
-        q = [p for p in range(1, b.arg_count) if p not in (node, vl, vr) and b.locals[p + 1]["ty"] == "usize"]
-        Pl, Pr = P(I, q[0] + 1), P(I, q[1] + 1)
-        # carry parameter: the by-value non-usize, non-reference parameter
-        cpos = [p for p in range(1, b.arg_count) if not b.locals[p + 1]["ty"].startswith("&") and b.locals[p + 1]["ty"] != "usize"]
-        fpos = [p for p in range(1, b.arg_count) if b.locals[p + 1]["ty"].startswith("&") and p != 0]
+        VP, VA = (lambda k: c01.VP(I, b, k)), (lambda ev: c01.VA(b, ev))
+        Pi, Pvl, Pvr = VP(node), VP(vl), VP(vr)
+        q = [p for p in range(1, c01.VN(b)) if p not in (node, vl, vr) and c01.VTY(b, p) == "usize"]
+        if len(q) != 2:
+            raise Anchor("%s: cannot identify the query bounds" % b.path)
+        Pl, Pr = VP(q[0]), VP(q[1])
+        # carry parameter: the by-value non-usize, non-reference parameter (virtual positions: a struct of usize fields
+        # standing for (i, vl, vr) is read field by field, see c01.VA)
+        cpos = [p for p in range(1, c01.VN(b)) if not c01.VTY(b, p).startswith("&") and c01.VTY(b, p) != "usize"]
+        byref = False
+        if not cpos:
+            # the carry handed down by `&mut T` (one exclusive reference besides self): the running aggregate is what
+            # the reference points to; "returned carry" is what the call leaves there
+            cpos = [p for p in range(1, c01.VN(b)) if c01.VTY(b, p).startswith("&mut ")]
+            byref = True
         if len(cpos) != 1:
             raise Anchor("%s: cannot identify the carry parameter" % b.path)
         cpos = cpos[0]
-        Pc = P(I, cpos + 1)
+        Pc = VP(cpos)
+        Cpl = ("deref", Pc)
+        M0 = ("load", ("m0",), Cpl)
+
+        def left_by(mem, ev):
+            """the carry in memory `mem` is what call `ev` left behind the reference, not written since"""
+            v = I.load(mem, Cpl)
+            return v[0] == "load" and v[1][0] == "after" and v[1][2] == ev.extra.get("uid")
+
+        # per mode: the carry operand of merge, the carry a recursive call is given, what a call returns
+        carry_operand = ("place", Cpl) if byref else ("val", Pc)
+        if byref:
+            gets_incoming = lambda ev: VA(ev)[cpos] == ("ref", Cpl) and I.load(ev.state[1], Cpl) == M0
+            gets_carry_of = lambda ev, first: VA(ev)[cpos] == ("ref", Cpl) and left_by(ev.state[1], first)
+            found_of = lambda ev: ev.res
+            returns_call = lambda st, ret, ev: ret == ev.res and left_by(st.mem, ev)
+        else:
+            gets_incoming = lambda ev: VA(ev)[cpos] == Pc
+            gets_carry_of = lambda ev, first: VA(ev)[cpos] == ("proj", 0, first.res)
+            found_of = lambda ev: ("proj", 1, ev.res)
+            returns_call = lambda st, ret, ev: ret == ev.res
         near = 1 if direction == "fwd" else 2  # child offset visited first
         far = 2 if direction == "fwd" else 1
-        child = lambda ev: 1 if util.lin_equal(ev.args[node], ("bin", "Add", ("bin", "Mul", Pi, mk_int(2)), mk_int(1))) else 2
+        child = lambda ev: 1 if util.lin_equal(VA(ev)[node], ("bin", "Add", ("bin", "Mul", Pi, mk_int(2)), mk_int(1))) else 2
         datai = ("index", ("field", ("deref", P(I, 1)), R.DATA), Pi)
         npred = 0
         for st in I.final_states:
@@ -156,45 +185,61 @@ def check(col, prog, tier, profile, fixture=None):
             for e in preds:
                 npred += 1
                 seen = None
+                fresh = True
                 for s in subterms(e.res):
                     mo = _merge_operands(s)
                     if mo:
                         seen = mo
-                want = [("val", Pc), ("place", datai)] if direction == "fwd" else [("place", datai), ("val", Pc)]
+                        if byref:
+                            mm = [x for x in s[2] if isinstance(x, tuple) and x and x[0] == "mem"]
+                            fresh = bool(mm) and I.load(mm[0][1], Cpl) == M0
+                want = [carry_operand, ("place", datai)] if direction == "fwd" else [("place", datai), carry_operand]
                 facts = e.state[0]
-                guard = ("eq", ("bin", "Eq", Pl, Pvl), 1) in facts and ("eq", ("bin", "Eq", Pr, Pvr), 1) in facts
+                eqf = lambda x, y: ("eq", ("bin", "Eq", x, y), 1) in facts or ("eq", ("bin", "Eq", y, x), 1) in facts or ("eq", ("bin", "Ne", x, y), 0) in facts or ("eq", ("bin", "Ne", y, x), 0) in facts
+                guard = eqf(Pl, Pvl) and eqf(Pr, Pvr)
                 key = "%s|predicate-argument" % fk(b)
-                if seen == want and guard:
+                if seen == want and fresh and guard:
                     col.ok("B1" + sfx, b.loc(e.bb), key, "f(merge(%s)) under l==vl && r==vr" % ("carry, data[i]" if direction == "fwd" else "data[i], carry"))
-                elif seen != want:
+                elif seen != want or not fresh:
                     col.violation("B1" + sfx, key, b.loc(e.bb), "the predicate of the %s search is shown %s; it must see merge(%s): for non-commutative merges the aggregate is not the in-order merge of the range" % ("forward" if direction == "fwd" else "reverse", tstr(e.res), "carry, node" if direction == "fwd" else "node, carry"))
                 else:
                     col.violation("B1" + sfx, "%s|predicate-guard" % fk(b), b.loc(e.bb), "the predicate is evaluated on a node that is not known to be fully covered (l==vl && r==vr): elements outside the query range are folded in")
             # ---- B2 / B3 on exits without recursion
             if not recs:
-                if ret[0] == "agg" and ret[1] == "tuple" and len(ret[2]) == 2:
-                    carry_out, found = ret[2]
+                if byref:
+                    pair = (I.load(st.mem, Cpl), ret) if ret[0] == "agg" and ret[1][0] == "adt" else None
+                else:
+                    pair = ret[2] if ret[0] == "agg" and ret[1] == "tuple" and len(ret[2]) == 2 else None
+                if pair is not None:
+                    carry_out, found = pair
                     is_none = found[0] == "agg" and found[1][3] == "None"
                     mo = _merge_operands(carry_out)
                     if is_none:
                         key = "%s|false-exit-returns-merged" % fk(b)
                         if mo:
-                            col.ok("B2" + sfx, b.loc(), key, "returns (merge(..), None)")
+                            col.ok("B2" + sfx, b.loc(), key, "returns (merge(..), None)" if not byref else "leaves merge(..) behind the carry reference and returns None")
                         else:
                             col.violation("B2" + sfx, key, b.loc(), "on the predicate-false exit the search returns %s as carry instead of the merged value: the node's elements are dropped from the running aggregate" % tstr(carry_out))
                     else:
                         idx = found[2][0] if found[0] == "agg" and found[2] else None
                         ptrue = any(f[0] == "eq" and f[2] == 1 and isinstance(f[1], tuple) and f[1][0] == "call" and "ops::Fn" in str(f[1][1]) for f in st.facts)
-                        leaf = ("eq", ("bin", "Eq", Pvl, Pvr), 1) in st.facts
+                        leaf = ("eq", ("bin", "Eq", Pvl, Pvr), 1) in st.facts or ("eq", ("bin", "Eq", Pvr, Pvl), 1) in st.facts
                         key = "%s|found-at-leaf" % fk(b)
                         if idx == Pvl and ptrue and leaf:
                             col.ok("B3" + sfx, b.loc(), key, "Some(vl) under vl==vr and predicate true")
                         else:
                             col.violation("B3" + sfx, key, b.loc(), "Some(%s) is produced %s" % (tstr(idx) if idx else "?", "off a leaf" if not leaf else "without the predicate being true" if not ptrue else "with an index that is not the leaf position"))
+                else:
+                    col.violation("B2" + sfx, "%s|exit-shape" % fk(b), b.loc(), "an exit of %s without recursion returns %s: neither (carry, found) nor an Option beside a carry reference" % (b.path, tstr(ret)))
                 continue
             # ---- B2 / B4 with recursion
             order = [child(e) for e in recs]
             first = recs[0]
+            key = "%s|first-call-gets-incoming-carry" % fk(b)
+            if gets_incoming(first):
+                col.ok("B2" + sfx, b.loc(first.bb), key, "the first child searched continues from the incoming carry")
+            else:
+                col.violation("B2" + sfx, key, b.loc(first.bb), "the first child searched is given carry %s instead of the incoming one: what was accumulated left of this node is missing from the aggregate shown to the predicate" % tstr(VA(first)[cpos]))
             if len(recs) == 2:
                 second = recs[1]
                 ok_order = order == [near, far]
@@ -204,22 +249,22 @@ def check(col, prog, tier, profile, fixture=None):
                 else:
                     col.violation("B4" + sfx, key, b.loc(first.bb), "the %s search visits the children in the wrong order: the first satisfying index is not the one returned" % ("forward" if direction == "fwd" else "reverse"))
                 key = "%s|second-child-gets-returned-carry" % fk(b)
-                if second.args[cpos] == ("proj", 0, first.res):
+                if gets_carry_of(second, first):
                     col.ok("B2" + sfx, b.loc(second.bb), key, "carry = first child's returned carry")
                 else:
-                    col.violation("B2" + sfx, key, b.loc(second.bb), "the second child is searched with carry %s instead of the carry returned by the first child: the first child's elements are missing from the aggregate shown to the predicate" % tstr(second.args[cpos]))
-                none_first = _opt_state(st, ("proj", 1, first.res)) == "none"
+                    col.violation("B2" + sfx, key, b.loc(second.bb), "the second child is searched with carry %s instead of the carry returned by the first child: the first child's elements are missing from the aggregate shown to the predicate" % tstr(VA(second)[cpos]))
+                none_first = _opt_state(st, found_of(first)) == "none"
                 key = "%s|second-result-returned" % fk(b)
-                if ret == second.res and none_first:
+                if returns_call(st, ret, second) and none_first:
                     col.ok("B2" + sfx, b.loc(second.bb), key, "first child had no hit; second child's result returned unchanged")
                 else:
                     col.violation("B2" + sfx, key, b.loc(second.bb), "after searching both children the result of the second is not returned unchanged (or the first child's hit was ignored)")
-            else:
+            elif len(recs) == 1:
                 # single call: either the near child hit (Some) and is returned, or the near child was skipped
                 e = first
                 if order[0] == near:
-                    hit = _opt_state(st, ("proj", 1, e.res)) == "some"
-                    okr = ret == e.res or (ret[0] == "agg" and ret[2] == (("proj", 0, e.res), ("proj", 1, e.res)))
+                    hit = _opt_state(st, found_of(e)) == "some"
+                    okr = ret == e.res or (ret[0] == "agg" and ret[2] == (("proj", 0, e.res), ("proj", 1, e.res))) or (byref and _same_option(st, ret, e.res))
                     key = "%s|stop-at-first-hit" % fk(b)
                     if hit and okr:
                         col.ok("B4" + sfx, b.loc(e.bb), key, "near child's Some is returned at once")
@@ -227,11 +272,13 @@ def check(col, prog, tier, profile, fixture=None):
                         col.violation("B4" + sfx, key, b.loc(e.bb), "the search does not return the near child's hit as found")
                 else:
                     key = "%s|far-only" % fk(b)
-                    okc = e.args[cpos] == Pc and ret == e.res
+                    okc = gets_incoming(e) and returns_call(st, ret, e)
                     if okc:
                         col.ok("B2" + sfx, b.loc(e.bb), key, "near child outside the range: far child searched with the incoming carry, result returned unchanged")
                     else:
                         col.violation("B2" + sfx, key, b.loc(e.bb), "when the near child is outside the query range the far child must be searched with the incoming carry and its result returned")
+            else:
+                col.violation("B4" + sfx, "%s|calls-per-path" % fk(b), b.loc(first.bb), "%s searches %d subtrees on one path: each node has two children" % (b.path, len(recs)))
         if npred == 0:
             col.violation("B1" + sfx, "%s|no-predicate-call" % fk(b), b.loc(), "the search never evaluates the predicate")
         # ---- B6
@@ -261,7 +308,14 @@ def check(col, prog, tier, profile, fixture=None):
         pubh = [m_ for m_ in util.methods_of(crate, "Segtree") if m_.vis == "pub" and m_.key not in rolekeys and not util.self_recursive(m_)]
         I = R.A_with(pubh)(b)
         It = c01.analyse(tgt)
-        cpos = [p for p in range(1, tgt.arg_count) if not tgt.locals[p + 1]["ty"].startswith("&") and tgt.locals[p + 1]["ty"] != "usize"][0]
+        cpos = [p for p in range(1, c01.VN(tgt)) if not c01.VTY(tgt, p).startswith("&") and c01.VTY(tgt, p) != "usize"]
+        byref_t = not cpos
+        if byref_t:
+            cpos = [p for p in range(1, c01.VN(tgt)) if c01.VTY(tgt, p).startswith("&mut ")]
+        if len(cpos) != 1:
+            raise Anchor("%s: cannot identify the carry parameter" % tgt.path)
+        cpos = cpos[0]
+        cpos_raw = c01._expansion(tgt)[cpos][0]
         for st in I.final_states:
             evs = st.event_list()
             if not any(is_call_to(ev, tgt) for ev in evs) and not _out_of_range_path(I, st, R, 2):
@@ -272,10 +326,13 @@ def check(col, prog, tier, profile, fixture=None):
             for ev in evs:
                 if not is_call_to(ev, tgt):
                     continue
-                c = ev.args[cpos]
+                c = c01.VA(tgt, ev)[cpos]
+                if byref_t and isinstance(c, tuple) and c[0] == "ref":
+                    # the carry behind a reference: the value of the referenced local when the search starts
+                    c = (ev.extra.get("argvals") or [None] * (cpos_raw + 1))[cpos_raw] or c
                 ok = c[0] == "call" and str(c[1]).endswith("Default::default")
                 ret = util.ret_term(st)
-                ok = ok and _same_option(st, ret, ("proj", 1, ev.res))
+                ok = ok and _same_option(st, ret, ev.res if byref_t else ("proj", 1, ev.res))
                 key = "%s|identity-carry" % fk(b)
                 if ok:
                     col.ok("B5" + sfx, b.loc(ev.bb), key, "initial carry T::default(); returns the found index")
